@@ -45,7 +45,9 @@ int main(int argc, char **argv) {
     gp.narrow_int32 = rep.args().Get("slice") == "asan";
     if (c09) { gp.max_extra_atts = 3; }
     vf::Geo g = vf::GenGeo(r, gp);
+    if (r.below(8) == 0) { const int pads[] = {1, 4, 12}; g.pad_stride = pads[r.below(3)]; g.family += "padded-stride+"; }
     vf::EncOpts o = vf::GenOpts(r, g);
+    if (!c09) o.track = r.below(2) != 0;  // tracking of encoded properties must not influence the stream (C09 needs it on)
     vf::AvoidHugeEntropyTables(g, &o);
     if (gp.narrow_int32) {
       // ASan/UBSan slice: the tex-coord predictor squares 2*q-bit quantities in int64 and overflows (UB on both
